@@ -351,7 +351,10 @@ def run_parsers(R, tonic, comp, enabled, tag=''):
         R.check(len(aggs) == 1, 'C05.R7', 'ctor' + tag, site(b), 'EncodedBytes aggregate sites: %d' % len(aggs))
         for bb, i, p, a, ops in aggs:
             f = a['fields']
-            ce = mirlib.root_local(b, ops[f.index('compression_encoding')])
+            fo = agg_field_operand(b, a, ops, 'compression_encoding')
+            if fo is None:
+                raise CheckError('UNRECOGNISED: EncodedBytes::new stores no compression_encoding field (directly or in a sub-struct)')
+            ce = mirlib.root_local(b, fo[0])
             ws = writers_of(b, ce)
             vals = {}
             for wb in ws:
